@@ -146,10 +146,13 @@ func init() {
 		gaps := []int64{1, 2, 5, 5000}
 		windows := []int{1, 2, 3, 4}
 		extra := 4
+		// a second, wider gap alphabet on the smaller windows (thorough tier)
+		var gaps2 []int64
+		var windows2 []int
 		if run.Thorough() {
-			gaps = []int64{1, 2, 5, 50, 1000}
 			windows = []int{1, 2, 3, 4, 5}
-			extra = 5
+			gaps2 = []int64{1, 2, 5, 50, 1000}
+			windows2 = []int{1, 2, 3}
 		}
 		states, transitions, seqs := 0, 0, 0
 		sigs := map[string]bool{}
@@ -160,21 +163,26 @@ func init() {
 			boot int64
 			q    bool
 			pre  []int64
+			gaps []int64
 		}
 		var jobs []subtree
-		for _, w := range windows {
-			for _, boot := range []int64{2, 7} {
-				for _, q := range []bool{false, true} {
-					states += 1 + len(gaps) // the root and its children
-					transitions += len(gaps)
-					for _, g1 := range gaps {
-						for _, g2 := range gaps {
-							jobs = append(jobs, subtree{w, boot, q, []int64{g1, g2}})
+		addTrees := func(windows []int, gaps []int64) {
+			for _, w := range windows {
+				for _, boot := range []int64{2, 7} {
+					for _, q := range []bool{false, true} {
+						states += 1 + len(gaps) // the root and its children
+						transitions += len(gaps)
+						for _, g1 := range gaps {
+							for _, g2 := range gaps {
+								jobs = append(jobs, subtree{w, boot, q, []int64{g1, g2}, gaps})
+							}
 						}
 					}
 				}
 			}
 		}
+		addTrees(windows, gaps)
+		addTrees(windows2, gaps2)
 		var mu sync.Mutex
 		var wg sync.WaitGroup
 		jch := make(chan subtree, len(jobs))
@@ -212,7 +220,7 @@ func init() {
 							}
 							return
 						}
-						for _, g := range gaps {
+						for _, g := range j.gaps {
 							tr++
 							rec(append(prefix, g))
 						}
@@ -275,6 +283,7 @@ func init() {
 		run.Set("traces_validated_against_impl", seqs)
 		run.Set("complete_sequences", seqs)
 		run.Set("exhaustive", true)
+		run.Set("second_alphabet", map[string]any{"gaps": gaps2, "windows": windows2})
 		run.Set("alphabet", map[string]any{"gaps": gaps, "windows": windows, "bootstrap": []int{2, 7}, "length": "window+" + fmt.Sprint(extra), "query_offsets": "0,1,3,100,ceil(21*mean)", "first_contact": []string{"report", "query"}})
 		run.Set("explanation", "every arrival history over the gap alphabet up to length window+k (tree of histories: states = histories, transitions = arrivals) is executed on the real accrualFailureDetector via ReportWithTimestamp/SuspicionLevelAt and compared after every arrival, at five query offsets, with an exact big.Rat reference (silence / mean of the last W intervals, first interval = bootstrap)")
 		fmt.Printf("  C12: histories=%d complete sequences=%d\n", states, seqs)
